@@ -3,6 +3,7 @@ mod corpus;
 mod e1;
 mod e2;
 mod e2d;
+mod e2g;
 mod e2n;
 mod e2p;
 mod e2x;
@@ -62,7 +63,7 @@ fn main() {
                         }
                     }
                     "C09" | "C10" | "C16" => e1::replay_cmd(&ctx, &id, &file),
-                    "C01" | "C02" | "C03" | "C04" | "C11" | "C12" | "C14" | "C15" => e2::replay_cmd(&ctx, &id, &file),
+                    "C01" | "C02" | "C03" | "C04" | "C07" | "C11" | "C12" | "C14" | "C15" => e2::replay_cmd(&ctx, &id, &file),
                     "C06" | "C17" => e3::replay_cmd(&ctx, &id, &file),
                     _ => inconclusive("replay not implemented for this property"),
                 }
@@ -81,6 +82,7 @@ fn main() {
                 "C12" => e2::c12(&ctx),
                 "C15" => e2d::c15(&ctx),
                 "C13" => e2n::c13(&ctx),
+                "C07" => e2g::c07(&ctx),
                 "C14" => e2p::c14(&ctx),
                 "C06" => e3::c06(&ctx),
                 "C17" => e3::c17(&ctx),
@@ -95,6 +97,29 @@ fn main() {
                     out.rule = "items from a grammar wider than the supported fragment: struct/enum shapes (unit, empty, newtype, tuple, named; 0-4 variants) x 0-3 attribute lists per container/variant/field with any subset of ts and serde keys (valid values, wrong literal kinds, invalid inflections, malformed types, keys of other positions, 24 unknown keys, duplicates) x 9 generics forms x unusual identifiers x doc attribute forms; expanded in-process under catch_unwind, with and without serde-compat. Oracle: no panic; items whose ts-spelled (or cleanly serde-spelled) attributes contain a documented incompatibility must be rejected; a lone unknown ts key must be named in the error. Non-trivial: >=2 attribute lists, or >=2 generic parameters, or a raw/non-ASCII identifier; distinct by item text".into();
                     out.assumptions = vec!["field/variant level rejections are only expected where the derive processes the field/variant (no container type/as override, variant not skipped)".into()];
                     e1::c16_inproc(&ctx, &mut out, &known);
+                    out.rule.push_str(". Compiled half: TS-only generated modules (rich generics: lifetimes, const parameters, concrete(..), defaults over earlier parameters; optional/optional_fields, flatten, inline, rename_all, unusual identifiers) are compiled against /repo; a module rustc rejects with an error code inside the expansion of derive(TS) is a violation (diagnostics the derive emits itself carry no code)");
+                    if out.violations.is_empty() {
+                        // replay files of the compiled half
+                        for k in known.iter().filter(|k| k.replay.is_some()) {
+                            let f = ctx.verif.join(k.replay.as_ref().unwrap());
+                            if let Some(case) = std::fs::read_to_string(&f).ok().and_then(|t| serde_json::from_str::<serde_json::Value>(&t).ok()) {
+                                if case["case"]["compile_only"] == true {
+                                    if let Ok(module) = serde_json::from_value::<typegen::Module>(case["case"]["module"].clone()) {
+                                        let fails = e2g::replay_compile(&ctx, module);
+                                        out.bump("replays_run", 1);
+                                        if k.status == "known" {
+                                            out.take_failures(&fails, &known);
+                                        } else {
+                                            for fl in fails {
+                                                out.violations.push((format!("regression-{}", fl["signature"].as_str().unwrap_or("x")), fl));
+                                            }
+                                        }
+                                    }
+                                }
+                            }
+                        }
+                        e2g::c16_compiled(&ctx, &mut out, &known);
+                    }
                     finish(&ctx, "C16", out)
                 }
                 "C05" => {
